@@ -357,9 +357,9 @@ Proof. vm_compute. reflexivity. Qed.
 Theorem g17_operators_guarded : operators_guarded functions = true.
 Proof. vm_compute. reflexivity. Qed.
 
-(* the theorem is not vacuous: 90 public methods, 50 of them take an index / assignment / table / slice *)
+(* the theorem is not vacuous: 92 public methods, 50 of them take an index / assignment / table / slice *)
 Theorem g17_api_method_count :
-  List.length (api_methods functions) = 90 /\ List.length (filter takes_checked_arg (api_methods functions)) = 50.
+  List.length (api_methods functions) = 92 /\ List.length (filter takes_checked_arg (api_methods functions)) = 50.
 Proof. vm_compute. split; reflexivity. Qed.
 
 (* ---- the pinned, human-readable table: for every public method that takes a checked argument, the part of its
